@@ -35,7 +35,7 @@ func init() {
 		ID:      "C19",
 		Flavour: "trace",
 		Rule: "cases = (point value and representation, list of scalars): points G, O in several forms, λ-scaled G, small-x, hashed and random points; scalars 0 (reference), 2, 3, n-1, n-2, 2^255, every 2^i, 2^255|2^i, " +
-			"sparse, dense, runs of leading/trailing zeros of every length, alternating, stored-form adjacent to One(), Montgomery-structured, PRNG (>=50% with bit 255 set); 1 (documented shortcut) and nil are excluded; every fourth scalar is multiplied twice in a row on identical inputs (a memo of the last result would shorten the second run). " +
+			"sparse, dense, runs of leading/trailing zeros of every length, alternating, stored-form adjacent to One(), Montgomery-structured, PRNG (>=50% with bit 255 set); scalars held in their second limb representation (stored limbs + n through the exported field S, for the values m/R with m < 2^256-n), scalar objects that reached their value through each mutator of the API (decode, arithmetic, CSelect, scripted Random incl. out-of-range draws, ...); 1 (documented shortcut) and nil are excluded; every fourth scalar is multiplied twice in a row on identical inputs (a memo of the last result would shorten the second run). " +
 			"Monitor: an AST rewriter puts a probe at the entry of every function and every nested block of internal/field and internal/scalar (current working tree); the recorded probe sequence between entry and return of Multiply " +
 			"must equal, in length and content, the sequence for the reference scalar on the same point. evaluations = traced multiplications; non-trivial = scalar not in {0,1}; distinct by (point, representation, scalar).",
 		Assume:   []string{"granularity is function/block entry inside internal/field and internal/scalar; not a timing or micro-architectural claim"},
